@@ -25,12 +25,16 @@ Inductive stmt :=
 | SList (d : nat) (l : list nat)
 | SIndex (d : nat) (l : nat) (i : nat)                (* plain list indexing with a public index *)
 | SGuarded (cnd : nat) (body : list stmt)            (* runtime.guarded(cond)(lambda: body)() *)
-| SIgnore (b : bool).                                (* runtime.ignore_errors(b) *)
+| SIgnore (b : bool)                                 (* runtime.ignore_errors(b) *)
+| SIteLazy (d cnd : nat) (tb : list stmt) (tr : nat) (fb : list stmt) (fr : nat)
+                                                     (* if_then_else(cond, lambda: tb; regs[tr], lambda: fb; regs[fr]) *)
+| SProbe.                                            (* harness probe: (guard is None, guard.value, _ignore_errors) *)
 
 Section WithP.
 Context {p : Z}.
 Local Notation slc := (Sym.slc p).
 Local Notation G := (@Gadgets.G p).
+Local Notation G1 := (@Gadgets.M p true).      (* statements: may use the block API / ignore_errors *)
 Local Notation gst := (@Gadgets.gst p).
 Local Notation pyval := (Api.pyval p).
 Local Notation cmd := (Sym.cmd p).
@@ -69,7 +73,7 @@ Fixpoint out_val (v : pyval) : list cmd :=
   | PNone => [COut 7 (VConst 0) []]
   | PNotImpl => [COut 8 (VConst 0) []]
   end.
-Definition emit_out (v : pyval) : G unit := fun s => (inl tt, s, out_val v).
+Definition emit_out (v : pyval) : G unit := fold_right (fun (c : cmd) (k : G unit) => Emit c k) (Ret tt) (out_val v).
 Definition out_globals (s : gst) : list cmd :=
   [COut (-1) (VB2Z (ignore s)) (match guard s with Some g => wire g | None => [] end);
    COut (-2) (VConst (match guard s with Some _ => 1 | None => 0 end)) (wire (one s))].
@@ -176,16 +180,41 @@ Fixpoint gen_stmt (st : stmt) (r : regs) {struct st} : G regs :=
                   else static_raise RuntimeError
       | _ => static_raise TypeError
       end
-  | SIgnore b => s <- get ;; set_globals (guard s) (if b then BTrue else BFalse) (one s) ;;; ret r
+  | SIgnore b => static_raise RuntimeError      (* a top-level statement (gen_top); not modelled inside a guarded body *)
+  | SIteLazy d cn tb tr fb fr =>
+      (* truev and falsev are two distinct callables; an int condition would return the callable itself (not modelled) *)
+      match rget r cn with
+      | PBool _ cb =>
+          let body b r0 := (fix go (b : list stmt) (r0 : regs) : G regs :=
+                              match b with [] => ret r0 | s1 :: b' => r1 <- gen_stmt s1 r0 ;; go b' r1 end) b r0 in
+          r1 <- guarded c cb (body tb r) ;;
+          let tv := rget r1 tr in
+          nc <- mkbool (bnot cb) ;;                                     (* ~cond *)
+          r2 <- guarded c (match nc with PBool _ x => x | _ => cb end) (body fb r1) ;;
+          let fv := rget r2 fr in
+          v <- if_then_else_evaluated c op2 (rget r cn) tv fv ;;
+          v' <- name_val v ;; emit_out v' ;;; ret (rset r2 d v')
+      | PInt _ => static_raise NotImplementedError
+      | _ => static_raise RuntimeError
+      end
+  | SProbe => s <- get ;;
+      emitc (COut 10 (match guard s with Some g => sval g | None => VConst (-1) end) []) ;;;
+      emitc (COut 11 (VB2Z (ignore s)) []) ;;; ret r
   end.
-Fixpoint gen_stmts (pr : list stmt) (r : regs) : G regs :=
-  match pr with [] => ret r | s1 :: pr' => r1 <- gen_stmt s1 r ;; gen_stmts pr' r1 end.
+(* top level: level-true statements (ignore_errors, block API) and everything else lifted *)
+Definition gen_top (st : stmt) (r : regs) : G1 regs :=
+  match st with
+  | SIgnore b => s <- get ;; set_globals (guard s) (if b then BTrue else BFalse) (one s) ;;; ret r
+  | _ => lift (gen_stmt st r)
+  end.
+Fixpoint gen_stmts (pr : list stmt) (r : regs) : G1 regs :=
+  match pr with [] => ret r | s1 :: pr' => r1 <- gen_top s1 r ;; gen_stmts pr' r1 end.
 
 Definition init_gst : gst :=
   {| npub := 0; npriv := 0; noid := 10; guard := None; ignore := BIgn0;
      one := ONE_SAFE; unw := None |}.
 Definition gen_prog (pr : list stmt) : list cmd :=
-  match gen_stmts pr [] init_gst with
+  match run (gen_stmts pr []) init_gst with
   | (inl _, s, cs) => cs ++ out_globals s
   | (inr _, _, cs) => cs
   end.
